@@ -1,3 +1,4 @@
+import Proofs.FileHandlers
 import Proofs.Hyperslab
 import Proofs.Path
 import Proofs.PathServe
